@@ -264,4 +264,62 @@ theorem smallInt_entry {i : Nat} (hi : i < 10) : genBel.smallInt[i]? = some (10 
   show Gen.belSmallInt[i]? = _
   rw [List.getElem?_eq_getElem hl, this, Nat.zero_add]
 
+/-! ## The model's control flow, restated with named stages -/
+
+/-- the computation between the index guards and `error_is_accurate`: `(fp4, errors3)` -/
+def stage (F : FloatC) (num : Number) (sInt : Nat) (sFp lFp : ExtFloat) : ExtFloat × Nat :=
+  let prod := num.mantissa * sInt
+  let p1 : ExtFloat × Nat :=
+    if prod ≥ u64Mod then
+      let fpn := (belNormalize ⟨num.mantissa, 0⟩).1
+      (belMul fpn sFp, truncatedErrors num fpn + errorHalfscale)
+    else
+      let fpn := (belNormalize ⟨prod, 0⟩).1
+      (fpn, truncatedErrors num fpn)
+  let fp2 := belMul p1.1 lFp
+  let errors2 := (if p1.2 > 0 then p1.2 + 1 else p1.2) + errorHalfscale
+  let n := belNormalize fp2
+  (⟨n.1.mant, n.1.exp + F.exponentBias⟩, (errors2 * 2 ^ n.2) % u64Mod)
+
+/-- the tail of `bellerophon` after `fp.exp += F::EXPONENT_BIAS` -/
+def finish (F : FloatC) (fp4 : ExtFloat) (errors3 : Nat) : ExtFloat :=
+  if -fp4.exp + 1 > 65 then ⟨0, 0⟩
+  else if !errorIsAccurate F errors3 fp4 then ⟨fp4.mant, fp4.exp + F.invalidFp⟩
+  else if -fp4.exp + 1 = 65 then ⟨0, 0⟩
+  else round F (roundNearestTieEven cbNearestEven) fp4
+
+/-- `finish` with the `some` on every branch, as the model has it -/
+def finishO (F : FloatC) (fp4 : ExtFloat) (errors3 : Nat) : Option ExtFloat :=
+  if -fp4.exp + 1 > 65 then some ⟨0, 0⟩
+  else if !errorIsAccurate F errors3 fp4 then some ⟨fp4.mant, fp4.exp + F.invalidFp⟩
+  else if -fp4.exp + 1 = 65 then some ⟨0, 0⟩
+  else some (round F (roundNearestTieEven cbNearestEven) fp4)
+
+theorem finishO_eq (F : FloatC) (fp4 : ExtFloat) (errors3 : Nat) :
+    finishO F fp4 errors3 = some (finish F fp4 errors3) := by
+  unfold finish finishO
+  split
+  · rfl
+  split
+  · rfl
+  split
+  · rfl
+  rfl
+
+theorem bellerophon_eq (T : BelTables) (F : FloatC) (num : Number) :
+    bellerophon T F num =
+      if num.mantissa = 0 ∨ num.exponent ≤ -4096 then some ⟨0, 0⟩
+      else if num.exponent ≥ 4096 then some ⟨0, F.infinitePower⟩
+      else if num.exponent + T.bias < 0 then some ⟨0, 0⟩
+      else if (Int.tdiv (num.exponent + T.bias) T.step).toNat ≥ T.large.length then
+        some ⟨0, F.infinitePower⟩
+      else
+        match T.smallInt[(Int.tmod (num.exponent + T.bias) T.step).toNat]?,
+              T.getSmall (Int.tmod (num.exponent + T.bias) T.step).toNat,
+              T.getLarge (Int.tdiv (num.exponent + T.bias) T.step).toNat with
+        | some sInt, some sFp, some lFp =>
+          finishO F (stage F num sInt sFp lFp).1 (stage F num sInt sFp lFp).2
+        | _, _, _ => none := by
+  rfl
+
 end MinLex.Bel
